@@ -222,6 +222,141 @@ def ocaml_build(drivers):
         return True, log
 
 
+# --------------------------------------------------------------------------- extraction re-validation
+# DESIGN section 7 item 4 / 14.6: the differential and acceptance checks run the EXTRACTED model (OCaml).  On every run a
+# deterministic sample of the cases the drivers evaluated is re-evaluated by Coq's own VM (vm_compute, checked again by the
+# kernel at Qed) against the compiled .vo files, and must give the output the OCaml driver printed.  The OCaml side prints
+# `VMCASE` lines for the sampled cases (ocaml/util.ml vm_pick, env VM_SAMPLE=<stride>:<offset>); the per-driver printers of
+# the INPUT as a Coq term live next to each check (Python, independent of the driver's own parser).
+
+VMDIR = os.path.join(BUILD, "vmcheck")
+
+
+def vm_env(seed, stride):
+    """Environment for a model driver: sample one case in `stride`, offset derived from VERIF_SEED."""
+    e = dict(os.environ)
+    e["VM_SAMPLE"] = "%d:%d" % (max(1, stride), (seed * 2654435761) % max(1, stride))
+    return e
+
+
+def vm_thin(items, want, seed):
+    """Deterministic thinning of a list of sampled cases to at most `want` (keeps order)."""
+    if len(items) <= want:
+        return list(items)
+    k = -(-len(items) // want)
+    off = (seed * 40503) % k
+    return [x for i, x in enumerate(items) if i % k == off][:want]
+
+
+def coq_nlist(bs):
+    """bytes / list of ints -> Coq term of type list N"""
+    return "([" + "; ".join(str(int(b)) for b in bs) + "]%N)"
+
+
+def coq_hex(h):
+    return coq_nlist(bytes.fromhex(h))
+
+
+def coq_bool(b):
+    return "true" if b else "false"
+
+
+def coq_list(xs):
+    return "[" + "; ".join(xs) + "]"
+
+
+def vm_crosscheck(run, driver, module_imports, terms, expected, labels=None, preamble="", timeout=300, min_cases=1):
+    """Extraction re-validation.  terms[i]: Coq term evaluating the MODEL on sampled case i (input printed by the check);
+    expected[i]: Coq term of the output the extracted OCaml code produced for it.  Writes build/vmcheck/<pid>_<driver>_cases.v
+    (one `Lemma vm_i : term = expected. Proof. vm_compute. reflexivity. Qed.` per case), compiles it against the built
+    .vo files.  Any disagreement = violation `extraction-mismatch:<driver>` (no failing input: the trusted layer is wrong)."""
+    labels = labels or ["case %d" % i for i in range(len(terms))]
+    rec = run.coverage.setdefault("vm_crosscheck", {})
+    n = len(terms)
+    if n < min_cases or len(expected) != n:
+        rec[driver] = {"cases": n, "agree": 0}
+        run.violation("vmcheck-failed:" + driver, {"cases": n, "expected": len(expected)},
+                      "extraction re-validation of driver %s got %d sampled cases (needs >= %d): the tie between the Coq model "
+                      "and the extracted code was not checked" % (driver, n, min_cases), True)
+        return False
+    os.makedirs(VMDIR, exist_ok=True)
+    base = "%s_%s_cases" % (run.pid, re.sub(r"\W", "_", driver))
+    head = ["(* generated by checks/common.py vm_crosscheck for ./check %s %s, seed %d: %d sampled cases of driver %s;" % (
+                run.pid, run.tier, run.seed, n, driver),
+            "   left = the model evaluated by Coq's VM, right = what the extracted OCaml code printed *)",
+            "From Coq Require Import List NArith ZArith Bool.",
+            "From GS Require Import %s." % " ".join(module_imports),
+            "Import ListNotations."] + ([preamble] if preamble else [])
+    body = ["Lemma vm_%d : (%s) = (%s). Proof. vm_compute. reflexivity. Qed." % (i, t.replace("\n", " "), e.replace("\n", " "))
+            for i, (t, e) in enumerate(zip(terms, expected))]
+    path = os.path.join(VMDIR, base + ".v")
+    open(path, "w").write("\n".join(head + body) + "\n")
+    t0 = time.time()
+    with Lock("coq"):
+        rc, out = sh(["timeout", str(timeout), "coqc"] + coq_flags() + [path], cwd=COQ)
+    secs = round(time.time() - t0, 2)
+    rec[driver] = {"cases": n, "agree": n if rc == 0 else 0, "seconds": secs, "file": os.path.relpath(path, VERIF),
+                   "cmd": "cd coq && timeout %d coqc -Q lib GS -Q model GS ... ../%s" % (timeout, os.path.relpath(path, VERIF)),
+                   "sample": [{"case": labels[i], "model_term": terms[i][:300], "ocaml_output": expected[i][:300]}
+                              for i in range(min(2, n))]}
+    run.coverage["vm_crosschecked"] = run.coverage.get("vm_crosschecked", 0) + (n if rc == 0 else 0)
+    if rc == 0:
+        return True
+    # which cases?  second pass in diagnostic form (no Qed, every case attempted)
+    diag = ['Goal (%s) = (%s). first [ vm_compute; reflexivity | idtac "VMMISMATCH %d"; vm_compute; '
+            'match goal with |- ?a = _ => idtac "VMCOQ %d" a end ]. Abort.' % (t.replace("\n", " "), e.replace("\n", " "), i, i)
+            for i, (t, e) in enumerate(zip(terms, expected))]
+    dpath = os.path.join(VMDIR, base + "_diag.v")
+    open(dpath, "w").write("\n".join(head + diag) + "\n")
+    with Lock("coq"):
+        rc2, out2 = sh(["timeout", str(timeout), "coqc"] + coq_flags() + [dpath], cwd=COQ)
+    bad = [int(x) for x in re.findall(r"^VMMISMATCH (\d+)", out2, re.M)]
+    coqv = {int(m.group(1)): m.group(2).strip() for m in re.finditer(r"^VMCOQ (\d+) ((?:.|\n)*?)(?=^VM|\Z)", out2, re.M)}
+    rec[driver]["agree"] = n - len(bad) if bad and rc2 == 0 else 0
+    if bad:
+        cases = [{"case": labels[i], "model_term": terms[i], "ocaml_output": expected[i], "coq_vm_output": coqv.get(i, "")[:4000]}
+                 for i in bad[:10]]
+        run.violation("extraction-mismatch:" + driver, {"driver": driver, "file": path, "mismatching": len(bad), "cases": cases},
+                      "Coq's vm_compute evaluation of the model disagrees with the extracted OCaml code (driver %s) on %d of %d "
+                      "sampled cases, first: %s — the extraction/driver layer is wrong, the model is no longer tied to what the "
+                      "differential check runs" % (driver, len(bad), n, labels[bad[0]]), True)
+    else:
+        run.violation("vmcheck-failed:" + driver, {"driver": driver, "file": path, "rc": rc, "log_tail": (out + out2)[-3000:]},
+                      "extraction re-validation file for driver %s does not compile (rc=%d): %s" % (
+                          driver, rc, (out.strip().splitlines() or ["timeout"])[-1][:300]), True)
+    return False
+
+
+def vm_crosscheck_file(run, driver, path, n, timeout=600):
+    """The same for a driver that writes its own re-validation file (C07: ocaml/c07.ml --emit-coq prints one
+    `Goal <model run on the replayed labels> = <what it observed>. Proof. vm_compute. reflexivity. Qed.` per sampled execution)."""
+    rec = run.coverage.setdefault("vm_crosscheck", {})
+    if n < 1 or not os.path.exists(path):
+        rec[driver] = {"cases": 0, "agree": 0}
+        run.violation("vmcheck-failed:" + driver, {"cases": n, "file": path},
+                      "extraction re-validation of driver %s got no sampled case: the tie between the Coq model and the extracted "
+                      "code was not checked" % driver, True)
+        return False
+    t0 = time.time()
+    with Lock("coq"):
+        rc, out = sh(["timeout", str(timeout), "coqc"] + coq_flags() + [path], cwd=COQ)
+    rec[driver] = {"cases": n, "agree": n if rc == 0 else 0, "seconds": round(time.time() - t0, 2), "file": os.path.relpath(path, VERIF)}
+    run.coverage["vm_crosschecked"] = run.coverage.get("vm_crosschecked", 0) + (n if rc == 0 else 0)
+    if rc != 0:
+        m = re.search(r'line (\d+), characters', out)
+        bad = ""
+        if m:
+            ls = open(path).read().splitlines()
+            i = int(m.group(1)) - 1
+            bad = " ".join(ls[max(0, i - 1):i + 1])[:3000]
+        run.violation("extraction-mismatch:" + driver, {"driver": driver, "file": path, "log": out[-2000:], "failing_goal": bad,
+                                                        "theorem": "extracted OCaml model = Coq model (vm_compute re-evaluation of "
+                                                                   "sampled executions)"},
+                      "a sampled execution re-evaluated inside Coq (vm_compute) disagrees with what the extracted model driver %s "
+                      "computed" % driver, True)
+    return rc == 0
+
+
 # --------------------------------------------------------------------------- Go harness
 
 def go_build(cmds, race=False):
